@@ -121,6 +121,7 @@ type rCtr struct {
 	reqUnsure  bool            // a failed UpdateContainer left the plugin and the runtime with different ideas of the request
 	resAtAlloc bool            // reserved-class under the configuration in force when last (re)allocated
 	restarts   int             // plugin restarts the container has lived through
+	lostPush   bool            // an UpdateContainers push for it was refused by the runtime (fault batches): F27
 	toldHist   map[string]bool // earlier told cpus|mems values (F7 classification)
 }
 
